@@ -151,17 +151,20 @@ def eng_determinism(pid, tier, wd, known, replay=None):
         shutil.rmtree(wv, ignore_errors=True)
         stats_layout = {"gopath": "gopath" in outs, "gopath-vendor": "gopath-vendor" in outs, "gopath-vendor-wire": "gopath-vendor-wire" in outs}
         # nested vendor: a vendored library with its own vendor directory whose package the generated code must name
+        # (the dependency's path has an element that merely ends in "vendor")
         nroot = os.path.join(src, "example.com/n")
         nfiles = {
             "app/wire.go": "//go:build wireinject\n// +build wireinject\n\npackage app\n\nimport (\n\t\"example.com/lib\"\n\t\"github.com/google/wire\"\n)\n\nfunc Init() lib.L {\n\tpanic(wire.Build(lib.Set))\n}\n",
             "app/doc.go": "package app\n",
         }
-        libfiles = {"lib.go": "package lib\n\nimport (\n\t\"example.com/dep\"\n\t\"github.com/google/wire\"\n)\n\ntype L struct{ D dep.D }\n\nfunc New(d dep.D) L { return L{D: d} }\n\nvar Set = wire.NewSet(New, wire.Value(dep.Default))\n"}
+        libfiles = {"lib.go": "package lib\n\nimport (\n\t\"example.com/govendor/dep\"\n\t\"github.com/google/wire\"\n)\n\ntype L struct{ D dep.D }\n\nfunc New(d dep.D) L { return L{D: d} }\n\nvar Set = wire.NewSet(New, wire.Value(dep.Default))\n"}
         depfiles = {"dep.go": "package dep\n\ntype D struct{ N int }\n\nvar Default = D{N: 3}\n"}
         layouts = {
-            "flat": {"example.com/n/": nfiles, "example.com/lib/": libfiles, "example.com/dep/": depfiles},
-            "vendor": {"example.com/n/": nfiles, "example.com/n/vendor/example.com/lib/": libfiles, "example.com/n/vendor/example.com/dep/": depfiles},
-            "nested-vendor": {"example.com/n/": nfiles, "example.com/n/vendor/example.com/lib/": libfiles, "example.com/n/vendor/example.com/lib/vendor/example.com/dep/": depfiles},
+            "flat": {"example.com/n/": nfiles, "example.com/lib/": libfiles, "example.com/govendor/dep/": depfiles},
+            "vendor": {"example.com/n/": nfiles, "example.com/n/vendor/example.com/lib/": libfiles, "example.com/n/vendor/example.com/govendor/dep/": depfiles},
+            # the workspace-level vendor directory ($GOPATH/src/vendor): the vendored path starts with "vendor/"
+            "workspace-vendor": {"example.com/n/": nfiles, "vendor/example.com/lib/": libfiles, "vendor/example.com/govendor/dep/": depfiles},
+            "nested-vendor": {"example.com/n/": nfiles, "example.com/n/vendor/example.com/lib/": libfiles, "example.com/n/vendor/example.com/lib/vendor/example.com/govendor/dep/": depfiles},
         }
         nested = {}
         for name, lay in layouts.items():
@@ -208,7 +211,7 @@ def eng_determinism(pid, tier, wd, known, replay=None):
                           "impl": {k: (v.decode(errors="replace")[-800:] if v else None) for k, v in nested.items()},
                           "oracle": ["the same sources give different wire_gen.go under flat / vendor / nested vendor GOPATH layouts"], "seed": seed()}, True))
         for label, b in list(nested.items()) + [(l, d.get("app")) for l, d in outs.items()]:
-            if b and (b"vendor/" in b or base.encode() in b or other.encode() in b or gp.encode() in b or b"/root/" in b or re.search(rb"20\d\d-\d\d-\d\d", b)):
+            if b and (re.search(rb'[/"]vendor/', b) or base.encode() in b or other.encode() in b or gp.encode() in b or b"/root/" in b or re.search(rb"20\d\d-\d\d-\d\d", b)):
                 viol.append(({"property": pid, "kind": "failing-input", "broken": "C16 oracle: run-specific data in the output", "input": {"variation": label},
                               "impl": b.decode(errors="replace")[-1500:], "oracle": ["the generated file mentions a vendor path, an absolute path or a date"], "seed": seed()}, True))
         stats = {"wire_runs": runs, "variations": sorted(outs), "layouts": stats_layout, "nested_layouts_generated": [k for k, v in nested.items() if v is not None],
